@@ -175,6 +175,8 @@ impl SendBufferPool {
       // Copy data into the registered buffer
       slot.as_mut_slice()[..data_to_copy.len()].copy_from_slice(data_to_copy);
       slot.in_kernel_use = true; // Mark as given to kernel
+      #[cfg(rzmq_verif)]
+      crate::verif::gauge_add("uring.send_pool.in_use", 1);
 
       trace!(
         "SendBufferPool: Acquired buffer {:?} for {} bytes.",
@@ -195,6 +197,8 @@ impl SendBufferPool {
     if let Some(id) = inner.free_ids.pop_front() {
       let slot = &mut inner.pool[id.0 as usize];
       slot.in_kernel_use = true;
+      #[cfg(rzmq_verif)]
+      crate::verif::gauge_add("uring.send_pool.in_use", 1);
       Some(SendBufferLease {
         id,
         ptr: slot.as_mut_slice().as_mut_ptr(),
@@ -215,6 +219,8 @@ impl SendBufferPool {
       let slot = &mut inner_guard.pool[slot_index];
       if slot.in_kernel_use {
         slot.in_kernel_use = false;
+        #[cfg(rzmq_verif)]
+        crate::verif::gauge_add("uring.send_pool.in_use", -1);
         // Check if it's already in free_ids to prevent duplicates, though ideally it shouldn't be.
         if !inner_guard.free_ids.contains(&id) {
           inner_guard.free_ids.push_back(id);
